@@ -185,7 +185,54 @@ func (x *Exec) eval(e ast.Expr, st *State) *Value {
 	panic(engErr("unsupported expression %T at %s", e, x.pos(e)))
 }
 
+// globalInit evaluates the composite-literal initialiser of a package-level variable
+// (assumed never reassigned: A-GLOBALS). The literal is materialised once per function run.
+func (x *Exec) globalInit(o *types.Var, st *State) *Value {
+	if v, ok := x.globalVals[o]; ok {
+		return v
+	}
+	pk := x.eng.pkgs[o.Pkg().Path()]
+	if pk == nil {
+		return nil
+	}
+	for _, f := range pk.Syntax {
+		for _, d := range f.Decls {
+			gd, ok := d.(*ast.GenDecl)
+			if !ok || gd.Tok != token.VAR {
+				continue
+			}
+			for _, sp := range gd.Specs {
+				vs := sp.(*ast.ValueSpec)
+				for i, n := range vs.Names {
+					if pk.TypesInfo.Defs[n] != o || i >= len(vs.Values) {
+						continue
+					}
+					cl, ok := ast.Unparen(vs.Values[i]).(*ast.CompositeLit)
+					if !ok {
+						return nil
+					}
+					// evaluate in a pseudo-frame of the defining package
+					fr := &frame{fi: x.fr().fi, info: pk.TypesInfo, pkg: pk.Types, boxed: map[types.Object]bool{}, boxRef: map[types.Object]*Term{}, loopOrd: map[ast.Node]int{}}
+					x.frames = append(x.frames, fr)
+					v := x.evalComposite(cl, st)
+					x.frames = x.frames[:len(x.frames)-1]
+					if x.globalVals == nil {
+						x.globalVals = map[*types.Var]*Value{}
+					}
+					x.globalVals[o] = v
+					x.note("package-level variable " + relPkg(o.Pkg().Path()) + "." + o.Name() + " read through its initialiser (assumed never reassigned)")
+					return v
+				}
+			}
+		}
+	}
+	return nil
+}
+
 func (x *Exec) global(o *types.Var, st *State) *Value {
+	if v := x.globalInit(o, st); v != nil {
+		return v
+	}
 	name := "glob!" + relPkg(o.Pkg().Path()) + "." + o.Name()
 	t := o.Type()
 	if x.isStruct(t) {
